@@ -1,48 +1,3 @@
-(* C03 -- Stateful bar-by-bar tokenisation is equivalent to tokenising the whole piece.
-   CORE level (see Props/C01.v for `core`, `valid_cfg`, `valid_from`, `exp_track`, `rel`): a call of `tokenise` is its
-   front end followed by `core c st evs` (C01_tokenise_core); here the front end's output, the event list of each
-   call, is given directly, with call-relative times.
-
-   * `chunked c st chs`: one `core` call per chunk, each started from the tstate returned by the previous one (so with
-     shift = t_time of that state), token lists concatenated.
-   * `chunk_len ch`: time of the chunk's last event (the cap at its end); `glue 0 chs`: the event list of the whole
-     piece = every chunk shifted (`shift_ev`: onset and offset times moved) to the sum of the previous chunk lengths.
-   * `chunks_ok g c k chs` (boolean): every chunk, in absolute time, is a valid event list from the reference clock
-     at its start (same conditions as C01's `valid_events`), and ends exactly on a bar start with no note written at
-     that instant (all its note onsets are before its end): a group of whole bars.  Time-signature changes, empty
-     bars and any grouping are allowed. *)
-From Coq Require Import ZArith List Bool Lia Permutation.
-From Model Require Import Base Util Seq Pairing Tok.
-From Proofs Require Import C01_rest C01_proofs C03_proofs.
-Import ListNotations.
-Open Scope Z_scope.
-
-(* The chunked run and the single run on the whole piece return the SAME token list and the same final state
-   (stronger than "detokenise to the same notes"); in particular both fail or both succeed. *)
-Theorem C03_chunked_tokens : forall (g : Z) (c : cfg) (chs : list (list event)),
-  valid_cfg g c = true -> chunks_ok g c (rclk0 c) chs = true ->
-  chunked c (tstate0 c) chs = core c (tstate0 c) (glue 0 chs).
-Proof. exact C03_proofs.C03_chunked_tokens. Qed.
-Print Assumptions C03_chunked_tokens.
-
-(* ... and that stream exists and detokenises to exactly the notes (pitch, onset, duration, velocity bin) and bar caps
-   of the whole piece, per track (content of each track as a permutation of `exp_track`, as in C01). *)
-Theorem C03_chunked_roundtrip : forall (g : Z) (c : cfg) (chs : list (list event)),
-  valid_cfg g c = true -> chunks_ok g c (rclk0 c) chs = true ->
-  exists toks st seqs,
-    chunked c (tstate0 c) chs = Ok (toks, st) /\ core c (tstate0 c) (glue 0 chs) = Ok (toks, st) /\
-    detokenise c toks = Ok seqs /\ length seqs = Z.to_nat (c_ntracks c) /\
-    forall i, (i < length seqs)%nat -> Permutation (filter rel (nth i seqs [])) (exp_track c (glue 0 chs) i).
-Proof. exact C03_proofs.C03_chunked_roundtrip. Qed.
-Print Assumptions C03_chunked_roundtrip.
-
-(* "for every way of grouping consecutive bars into calls": two groupings of the same piece give the same result *)
-Theorem C03_regroup : forall (g : Z) (c : cfg) (chs1 chs2 : list (list event)),
-  valid_cfg g c = true -> chunks_ok g c (rclk0 c) chs1 = true -> chunks_ok g c (rclk0 c) chs2 = true ->
-  glue 0 chs1 = glue 0 chs2 ->
-  chunked c (tstate0 c) chs1 = chunked c (tstate0 c) chs2.
-Proof. exact C03_proofs.C03_regroup. Qed.
-Print Assumptions C03_regroup.
 (* ---- block to append to Props/C03.v (piece level).  Needs, compiled in this order:
    Proofs/C03_piece_norm.v, C03_piece_fe.v, C03_piece_bars.v, C03_piece_clock.v, C03_piece_join.v,
    C03_piece_groups.v, C03_piece.v, C03_full_core.v, C03_full_groups.v, C03_full.v *)
